@@ -25,6 +25,7 @@ fn main() {
         "rings" => shpverif::cmd_rings::run(&a),
         "complete" => shpverif::cmd_complete::run(&a),
         "geo" => shpverif::cmd_geo::run(&a),
+        "surface" => shpverif::cmd_surface::run(&a),
         "arbitrary" => shpverif::cmd_arbitrary::run(&a),
         "arbitrary-child" => shpverif::cmd_arbitrary::child(&a),
         c => {
